@@ -618,9 +618,9 @@ def gOut (fin : AggE → Acc → Val) (aggs : List AggE) (g : GState) : Row :=
 def gOutGlobal (fin : AggE → Acc → Val) (aggs : List AggE) (g : GState) : List Row :=
   if aggs.isEmpty then [] else [gOut fin aggs g]
 
-/-- pull `GroupKey`: floats become the integer with the same bit pattern (and come out as such) -/
+/-- pull `GroupKey`: every key value is kept as it is (float keys by bit pattern; before the
+repair a float became the integer with the same bit pattern and came out as such) -/
 def pullKeyPart : Val → Val
-  | .flt b => .int (if b < 2 ^ 63 then (b : Int) else (b : Int) - 2 ^ 64)
   | v => v
 
 def pullGMk (gcols : List Nat) (aggs : List AggE) (r : Row) : GState :=
